@@ -32,7 +32,9 @@ RULE = ('each case evaluates one identity at one point. Exact tier: entries '
         'AttributeError (exhaustive). Float tier (|x| in 1e-3..1e6, angles in '
         '[-4pi,4pi]): normalize, from_magnitude, from_heading, from_polar, '
         'rotate, mag/distance/heading, limit, orthogonal_projection within 64 '
-        'ulp relative / 1e-9 absolute. Non-trivial = matrices with all '
+        'ulp relative / 1e-9 absolute; exactly singular Mat4 of ordinary '
+        'floats (tenths and eighths; identical rows, a doubled row, a zero '
+        'column) => unchanged + warning. Non-trivial = matrices with all '
         'entries non-zero and pairwise distinct / vectors without zero '
         'component / every piecewise region.')
 ANCHORS = [
@@ -78,7 +80,8 @@ EXACT = ['vec_arith', 'vec_dot', 'vec_cross', 'vec_lerp', 'vec_scale',
          'mat_assoc', 'mat_identity', 'mat_vec', 'mat_vec_assoc',
          'mat_transpose', 'mat_inverse', 'mat_singular', 'mat_translate']
 FLOAT = ['f_normalize', 'f_from_magnitude', 'f_from_heading', 'f_from_polar',
-         'f_rotate', 'f_mag_distance', 'f_limit', 'f_ortho']
+         'f_rotate', 'f_mag_distance', 'f_limit', 'f_ortho',
+         'f_mat_singular']
 
 
 # ---- number encoding (cases are JSON) ----------------------------------
@@ -277,6 +280,24 @@ def gen_point(rng, identity):
         m = mag * rng.choice([0.25, 0.9, 0.999, 1.001, 1.5, 4.0,
                               rng.uniform(0.1, 3)])
         return {'n': n, 'a': a, 'm': m}
+    if identity == 'f_mat_singular':
+        # exactly singular matrices of ordinary floats (one-decimal values
+        # such as 0.1 are not dyadic: products and sums are rounded); 30%
+        # use eighths, for which float arithmetic is exact
+        den = 8 if rng.random() < 0.3 else 10
+        a = [rng.randint(-30, 30) / den for _ in range(16)]
+        if rng.random() < 0.3:          # an affine matrix
+            a[3], a[7], a[11], a[15] = 0.0, 0.0, 0.0, 1.0
+        i, j = rng.sample(range(3), 2)
+        k = rng.random()
+        if k < 0.5:                     # two identical rows
+            a[j * 4:j * 4 + 4] = a[i * 4:i * 4 + 4]
+        elif k < 0.7:                   # row j = 2 * row i (exact doubling)
+            a[j * 4:j * 4 + 4] = [2 * x for x in a[i * 4:i * 4 + 4]]
+        else:                           # a zero column
+            for r in range(4):
+                a[r * 4 + i] = 0.0
+        return {'a': a}
     if identity == 'f_ortho':
         left, bottom, near = fnum(), fnum(), abs(fnum())
         return {'l': left, 'r': left + abs(fnum()), 'b': bottom,
@@ -550,6 +571,21 @@ def _check(name, p, dm, vec, mat, res, fail, eq, nz, distinct_nz, caught):
            [pt[0] + v[0], pt[1] + v[1], pt[2] + v[2], 1],
            'from_translation moves points by v')
         res.nontrivial = distinct_nz(a) and nz(v)
+    elif name == 'f_mat_singular':
+        a = p['a']
+        if o_det([Fraction(x) for x in a], 4) != 0:
+            res.stats['singular_generator_missed'] += 1
+            return
+        A = dm.Mat4(a)
+        inv = ~A
+        res.tags['float_singular_entries'].add(
+            'dyadic' if _short_dyadic(a) else 'non-dyadic')
+        if not (inv is A or list(inv) == list(a)) or not caught:
+            fail('an exactly singular matrix of floats must be returned '
+                 'unchanged with a warning', 'the same matrix + warning',
+                 [list(inv) == list(a), len(caught),
+                  max(abs(x) for x in inv)])
+        res.nontrivial = True
     else:
         _check_float(name, p, dm, vec, res, fail)
 
@@ -734,5 +770,14 @@ def evidence_extra(tier, total):
                     'grid (80% of the entries of each point)'}
 
 
+def _short_dyadic(values):
+    return all(Fraction(x).denominator <= 2 ** 20 for x in values)
+
+
 def classify(case, div):
+    if div['kind'] == 'f_mat_singular' \
+            and not _short_dyadic(dec(case['point']['a'])):
+        # float arithmetic on these entries is inexact; with short dyadic
+        # entries it is exact and a miss would be a different defect
+        return 'singular-float-matrix-inverted'
     return None
